@@ -216,11 +216,24 @@ Record peer := mkpeer {
   p_hdr_after : option Z      (* PROXY header complete this long after it is first waited for; None = never *)
 }.
 
-Definition blocks (c : cfg) (m : str) : bool := c_has_pp c && mem m pp_blocking_methods.
+(* I/O on the connection waits for the peer on any listener; the address getters and deadline
+   setters of a TCP / tls / conntrack connection do not (modelled: net, crypto/tls delegate them),
+   except on a proxyproto.Conn, where the extracted methods first wait for the PROXY header. *)
+Definition io_methods : list str :=
+  [b "Read"; b "Write"; b "ReadFrom"; b "WriteTo"; b "Handshake"; b "HandshakeContext"].
+Definition conn_methods : list str :=
+  [b "Close"; b "LocalAddr"; b "RemoteAddr"; b "SetDeadline"; b "SetReadDeadline"; b "SetWriteDeadline"].
+Definition blocks (c : cfg) (m : str) : bool :=
+  mem m io_methods || negb (mem m conn_methods) || (c_has_pp c && mem m pp_blocking_methods).
+(* the obligation on the extracted call list: every call is a known non-I/O method that does
+   not wait for the PROXY header (an escape of the connection into a helper is not known) *)
+Definition call_never_waits (m : str) : bool :=
+  negb (mem m io_methods) && mem m conn_methods && negb (mem m pp_blocking_methods).
 
 (* how long the calls made before `go` hold the loop for this peer; None = for ever *)
 Definition pre_go_wait (calls : list str) (c : cfg) (p : peer) : option Z :=
-  if existsb (blocks c) calls then
+  if existsb (fun m => mem m io_methods || negb (mem m conn_methods)) calls then None
+  else if existsb (blocks c) calls then
     match p_hdr_after p, pos (if pp_timeout_closes_conn then c_pp c else 0) with
     | Some x, Some L => Some (Z.max 0 (Z.min x L))
     | Some x, None => Some (Z.max 0 x)
